@@ -360,6 +360,12 @@ func nullaryResults() string {
 
 func init() {
 	// writes into whatever an operand-less operator hands out
+	// eexec sections (well-formed hex, harness cipher) whose program fails or
+	// stops inside the section: the interpreter leaves the section abruptly
+	for _, body := range []string{"1 (x) add", "nosuchname", "stop", "/x 1 def 5 string currentfile exch readstring", "{ 1 (x) add } exec", "10 dict begin /a 1 def exit"} {
+		plain := append([]byte{'v', 'e', 'r', 'i'}, (body + "\n")...)
+		hostilePieces = append(hostilePieces, fmt.Sprintf("/pre 1 def currentfile eexec\n%x\n", t1ref.Encrypt(plain, 55665)))
+	}
 	var sysNames []string
 	for n := range postscript.NewInterpreter().SystemDict {
 		sysNames = append(sysNames, string(n))
@@ -494,6 +500,13 @@ func checkHistory(c *historyCase) (msg string, effective int) {
 			defer func() { recover() }()
 			intp.ExecuteString(p)
 		}()
+		// straight after each hostile program: the next instance to run
+		// anything at all (it is the first to pick up whatever the failed run
+		// left in a pool or a package-level variable)
+		next := postscript.NewInterpreter()
+		if err := next.ExecuteString("/probe { 1 2 add } def probe (abc) length"); err != nil || len(next.Stack) != 2 || next.Stack[0] != postscript.Integer(3) || next.Stack[1] != postscript.Integer(3) {
+			return fmt.Sprintf("the instance that runs next after a hostile program misbehaves: `/probe { 1 2 add } def probe (abc) length` gives err=%v stack=%v\nhostile program: %q", err, next.Stack, p), effective
+		}
 		if instanceSummary(intp) != pristine || len(intp.DictStack) != 2 {
 			effective++
 		}
@@ -536,7 +549,7 @@ func TestP1Isolation(t *testing.T) {
 	rec := ev.New("C18", "isolation")
 	defer rec.Finish(t)
 	firstRun = runWorkload()
-	rec.Rule(fmt.Sprintf("histories: a probe workload (%d items: 16 programs touching every operator and the error paths, ReadCMap, type1.Read of a PFB font with seac, Font.Write in 4 formats + re-read, WritePDF, Metrics.Write + re-read, all query methods, 130 name look-ups) is run; then 1-5 hostile programs drawn from %d pieces and their concatenations (overwriting or re-defining entries of systemdict, userdict, errordict, every StandardEncoding slot, the CIDInit procedure set, FontDirectory and the resource categories, replacing operators used by the font and CMap readers, or failing half-way inside begin, inside a CMap block, inside eexec, inside nested procedures) each run in an instance of its own; then a fresh instance is compared slot by slot with a pristine one and the workload is run again. Oracle: results before == results after == golden digest computed in a fresh process that never ran a hostile program. Non-trivial: >= 1 hostile program changed a shared-looking object in its own instance; distinct by history.", len(workload), len(hostilePieces)))
+	rec.Rule(fmt.Sprintf("histories: a probe workload (%d items: 16 programs touching every operator and the error paths, ReadCMap, type1.Read of a PFB font with seac, Font.Write in 4 formats + re-read, WritePDF, Metrics.Write + re-read, all query methods, 130 name look-ups) is run; then 1-5 hostile programs drawn from %d pieces and their concatenations (overwriting or re-defining entries of systemdict, userdict, errordict, every StandardEncoding slot, the CIDInit procedure set, FontDirectory and the resource categories, replacing operators used by the font and CMap readers, or failing half-way inside begin, inside a CMap block, inside an eexec section (malformed, or well-formed with a program that errors or stops), inside nested procedures) each run in an instance of its own; after each of them the very next instance runs a small program that must give its known result; then a fresh instance is compared slot by slot with a pristine one and the workload is run again. Oracle: results before == results after == golden digest computed in a fresh process that never ran a hostile program. Non-trivial: >= 1 hostile program changed a shared-looking object in its own instance; distinct by history.", len(workload), len(hostilePieces)))
 	ev.SetupRapid(1200, 64000)
 	rapid.Check(t, func(t *rapid.T) {
 		n := rapid.IntRange(1, 5).Draw(t, "nprograms")
